@@ -109,7 +109,7 @@ fn frac_where(td: &TypeDef, w: &mut WExpr) {
 
 /// time values and literals of the shared generators sit on a half-hour grid from 1_700_000_000; a case
 /// moves that grid onto hour / day boundaries (base, step), keeping the +1 s offsets of the literals
-fn remap_time(v: i64, base: i64, step: i64) -> i64 {
+pub fn remap_time(v: i64, base: i64, step: i64) -> i64 {
     let d = v - 1_700_000_000;
     base + d.div_euclid(1800) * step + d.rem_euclid(1800)
 }
@@ -127,7 +127,7 @@ fn remap_lit(l: &mut Lit, base: i64, step: i64) {
     }
 }
 
-fn remap_where(td: &TypeDef, w: &mut WExpr, base: i64, step: i64) {
+pub fn remap_where(td: &TypeDef, w: &mut WExpr, base: i64, step: i64) {
     let is_time = |f: &str| matches!(td.field(f).map(|x| &x.ty), Some(FT::Datetime) | Some(FT::Date));
     match w {
         WExpr::Cmp { field, lit, .. } => {
